@@ -212,6 +212,17 @@ def close1(ctx, rule="CLOSE-1"):
         # a container flush whose result is returned is reached on both edges (finisher present or absent), only error returns skip it
         resid = {b for b, t in f.calls() if (t.get("callee") or "").endswith("FromResidual::from_residual")}
         resid |= {bl["id"] for bl in f.blocks if not bl["cleanup"] for st in bl["stmts"] if st["lhs"]["l"] in rl and not st["lhs"]["p"] and st["rhs"]["rv"] == "agg" and st["rhs"].get("variant") == "Err"}
+        # `return outcome` under `outcome.is_err()`: the finisher's own failed result is what is returned
+        Sf_ = Sym(prog, f)
+        for bl in f.blocks:
+            if bl["cleanup"]:
+                continue
+            def _is_err_of_finish(e):
+                m_ = re.fullmatch(r"call@(\d+):std::result::Result::<T, E>::is_err", e)
+                return bool(m_) and re.fullmatch(r"&?call@\d+:.*Finish.*::finish", Sf_.val(f.blocks[int(m_.group(1))]["term"]["args"][0])) is not None
+            if any(_is_err_of_finish(e) and tr is True for (e, tr, g) in Sf_.bool_facts_at(bl["id"])) and \
+                    any(st["lhs"]["l"] in rl and not st["lhs"]["p"] and st["rhs"]["rv"] == "use" and re.fullmatch(r"call@\d+:.*Finish.*::finish", Sf_.val(st["rhs"]["ops"][0])) for st in bl["stmts"]):
+                resid.add(bl["id"])
         ok = not (set(f.returns()) & cfg.reachable(f, 0, avoid={c[0] for c in cf} | resid))
     ctx.check(ok, rule, "flush returns CompoundFile::flush", "", "Package::flush does not end by returning the result of CompoundFile::flush on every non-error path", f.loc(), fn=f.name,
               key="%s|flush|container" % rule)
@@ -289,7 +300,14 @@ def close2(ctx, rule="CLOSE-2"):
     # the function returns Ok only at the end; no early Ok return skips the pool section
     oks = [b["id"] for b in f.blocks if not b["cleanup"] for s in b["stmts"] if s["lhs"]["l"] == 0 and s["rhs"]["rv"] == "agg" and s["rhs"].get("variant") == "Ok"]
     pm = [c for c in cs if c[1] == "msi::internal::stringpool::StringPool::is_modified"]
-    ok = len(oks) == 1 and len(pm) == 1 and not (set(oks) & cfg.reachable(f, 0, avoid={pm[0][0]} | {b for b, t in f.calls() if (t.get("callee") or "").endswith("from_residual")}))
+    ok = len(oks) >= 1 and len(pm) == 1 and not (set(oks) & cfg.reachable(f, 0, avoid={pm[0][0]} | {b for b, t in f.calls() if (t.get("callee") or "").endswith("from_residual")}))
+    # an Ok before the pool section's writes is legitimate only on the `pool not modified` edge
+    for ob in oks:
+        if len(oks) > 1 and pm and pool_w[0] not in su and not cfg.reachable(f, pm[0][0]) >= {ob}:
+            ok = False
+    if ok and len(oks) > 1:
+        early = [ob for ob in oks if unmod[0] not in cfg.backward_reachable(f, {ob})]
+        ok = all(has_fact(S, ob, r"StringPool::is_modified\(", False) for ob in early)
     ctx.check(ok, rule, "every successful path tests the pool flag", "", "FinishImpl::finish can return Ok without testing StringPool::is_modified()", f.loc(), fn=f.name)
 
 
@@ -460,6 +478,18 @@ def close3(ctx, rule="CLOSE-3"):
         if viatry:
             a = S.val(f.blocks[int(viatry.group(1))]["term"]["args"][0])
             viatry = a.startswith("call@%d:" % fb)
+        isr = re.fullmatch(r"call@(\d+):std::result::Result::<T, E>::(is_err|is_ok)", d)
+        if isr and not S.val(f.blocks[int(isr.group(1))]["term"]["args"][0]).lstrip("&").startswith("call@%d:" % fb):
+            isr = None
+        if isr:
+            isr = re.match(r"()(is_err|is_ok)", isr.group(2))
+            # `if outcome.is_err() { re-arm; return outcome }`: the success edge is is_err == false / is_ok == true
+            want_v = 0 if isr.group(2) == "is_err" else 1
+            for v, tg in bl["term"]["cases"]:
+                if v == want_v:
+                    ok_targets.add(tg)
+            if want_v not in [v for v, tg in bl["term"]["cases"]]:
+                ok_targets.add(bl["term"]["otherwise"])
         if direct or viatry:
             cases = bl["term"]["cases"]
             for v, tg in cases:
